@@ -36,6 +36,10 @@ def run(ctx):
         if rr["error"] is not None:
             res.count("reference_error")
             return
+        if r["error"] is not None and r["error"].get("code") == "OVERLAPPING_PATH" and not progs.sites_ok(rec.world):
+            # outside the supported subset, and said so: a path kept twice with different code or arguments
+            res.count("rejected_path_kept_twice")
+            return
         if r["error"] is not None:
             res.violations.append({"what": "dds fails where plain execution succeeds: %s" % (r["error"],),
                                    "input": {"step": rec.brief(), "source": progs.render_world(rec.world, "extmod")}, "kf": None})
@@ -46,6 +50,8 @@ def run(ctx):
     kinds = ("memory", "local", "local_lru", "memory", "noop") if thorough else ("memory", "memory", "local", "local_lru", "noop")
     recs = hist.run_histories(ctx, res, 400 if thorough else 60, 10 if thorough else 6, store_kinds=kinds,
                               on_record=on_record)
+    # functions invoked from several sites (a path possibly kept twice): rejected explicitly, or every value right
+    recs += hist.run_histories(ctx, res, 60 if thorough else 12, 4, store_kinds=("memory",), on_record=on_record, allow="multi")
     # directed stratum: literal arguments flowing down chains of keeps through run-time expressions
     recs += hist.run_histories(ctx, res, 100 if thorough else 20, 6, store_kinds=("memory",), on_record=on_record, allow="chain",
                                edit_kinds=["const_arg", "const_arg", "var", "body", "revert", "none", "multiline", "rt_arg", "rt_arg"])
